@@ -366,6 +366,18 @@ pub trait Api: Send + Sync {
     fn key_hash(&self, k: u64, borrowed: bool) -> (u64, u64);
 }
 
+/// TTL of an insert operation: nanoseconds, except for the four largest codes, which stand for
+/// durations no `u64` of nanoseconds can hold (584 years).
+pub fn dur_of_ttl(ttl_ns: u64) -> Duration {
+    match u64::MAX - ttl_ns {
+        0 => Duration::MAX,
+        1 => Duration::from_secs(u64::MAX - 1),
+        2 => Duration::from_secs(i64::MAX as u64),
+        3 => Duration::from_secs(u64::MAX / 2),
+        _ => Duration::from_nanos(ttl_ns),
+    }
+}
+
 fn dur_ns(d: Duration) -> u64 {
     if d == Duration::MAX {
         u64::MAX
@@ -940,7 +952,7 @@ pub fn do_op(api: &dyn Api, client: usize, idx: usize, op: &Op) {
     };
     log(EvKind::Inv { client, idx, op: op.clone(), val });
     let r = catch_unwind(AssertUnwindSafe(|| match op {
-        Op::Insert { k, cost, ttl_ns, .. } => match api.insert(*k, val.unwrap(), *cost, Duration::from_nanos(*ttl_ns)) {
+        Op::Insert { k, cost, ttl_ns, .. } => match api.insert(*k, val.unwrap(), *cost, dur_of_ttl(*ttl_ns)) {
             Ok(b) => Res::Bool(b),
             Err(e) => Res::Err(e),
         },
